@@ -3,7 +3,7 @@ import itertools
 import os
 import random
 
-from ..common import require, BUILD
+from ..common import require, BUILD, concretize
 from ..obligations import Ob
 from ..symasm import assemble, word_at, write_aux_file
 
@@ -216,6 +216,74 @@ def h_layout(params, vals, ctx):
     return True
 
 
+def h_concat(params, vals, ctx):
+    """Byte-chunk algebra as a unit: a sequence of chunks (plain bytes, SizedDeferred, Deferred, nested concatenations) added up
+    the way compile_block does it; the announced length equals the length of what is finally produced, the running address after
+    every chunk equals base + bytes so far, and the bytes come out in order."""
+    from pdpy11.deferred import Deferred, SizedDeferred, BaseDeferred, Promise, wait, not_ready
+    from ..symasm import reset_module_state
+    reset_module_state()
+    shape = params["shape"]
+    n1, n2, b = vals["N1"], vals["N2"], vals["B"]
+    require(0 <= n1 <= 3 and 0 <= n2 <= 3)
+    require(0 <= b < 60000)
+    n1, n2 = concretize(n1), concretize(n2)
+    known = {}
+
+    def late(name, value):
+        def fn():
+            if name not in known:
+                not_ready()
+                raise KeyError(name)
+            return value
+        return fn
+
+    P = Promise(int, "LA")
+    addr = P
+    data = b""
+    addrs = []
+    pieces = []
+    for kind in shape:
+        if kind == "bytes":
+            chunk = b"\x01\x02"
+            want = b"\x01\x02"
+        elif kind == "sized":
+            chunk = SizedDeferred(bytes, 2, late("k", b"\x03\x04"))
+            want = b"\x03\x04"
+        elif kind == "deferred1":
+            chunk = Deferred(bytes, late("k", b"\x05" * n1))
+            want = b"\x05" * n1
+        elif kind == "deferred2":
+            chunk = Deferred(bytes, late("k", b"\x06" * n2))
+            want = b"\x06" * n2
+        elif kind == "nested":
+            inner = SizedDeferred(bytes, 1, late("k", b"\x07")) + Deferred(bytes, late("k", b"\x08" * n1)) + b"\x09"
+            chunk = Deferred(bytes, (lambda inner=inner: inner))
+            want = b"\x07" + b"\x08" * n1 + b"\x09"
+        else:  # empty
+            chunk = b""
+            want = b""
+        addrs.append(addr)
+        pieces.append(want)
+        data = data + chunk
+        addr = addr + (chunk.length() if isinstance(chunk, BaseDeferred) else len(chunk))
+    total_len = data.length() if isinstance(data, BaseDeferred) else len(data)
+    P.settle(b)
+    known["k"] = True
+    out = wait(data)
+    ctx.observe(out)
+    ctx.reach(True)
+    exp = b"".join(pieces)
+    if not (bytes(out) == exp and wait(total_len) == len(exp)):
+        return False
+    pos = b
+    for a, w in zip(addrs, pieces):
+        if not (wait(a) == pos):
+            return False
+        pos = pos + len(w)
+    return wait(addr) == pos
+
+
 def feasible(files_kinds):
     """Some parity assignment of base and sizes puts every word-sized statement on an even address."""
     for b, n, k in itertools.product((0, 1), (0, 1, 2), (0, 1, 2)):
@@ -243,7 +311,20 @@ def _ob(tag, files_kinds, **kw):
               pre="0 <= B, B+len < 65536; N,K in 0..6; word-sized statements on even addresses")
 
 
+CONCAT_SHAPES = [
+    ["bytes", "sized", "deferred1"], ["deferred1", "deferred2", "bytes"], ["sized", "nested", "sized"], ["nested", "nested"], ["empty", "deferred1", "empty", "bytes"],
+    ["deferred1"], ["bytes", "bytes", "deferred2", "sized", "nested", "deferred1"], ["sized", "sized", "sized"], ["nested", "empty", "deferred2"],
+]
+
+
 def obligations(tier, seed):
+    unit = [Ob(oid=f"unit/concat/{'+'.join(sh)}", harness="pdpverif.props.c02:h_concat", params={"shape": sh}, vars={"N1": "int", "N2": "int", "B": "int"},
+               timeout=300, note="unit-level: Concatenator / SizedDeferred / Deferred.length with contents that become known only later")
+            for sh in CONCAT_SHAPES]
+    return unit + _filtered_obligations(tier, seed)
+
+
+def _filtered_obligations(tier, seed):
     obs = [o for o in _obligations(tier, seed) if feasible(o.params["files"])]
     # '. = X' while no base has been set is treated as '.link' by the assembler (outside the property as stated, see C12)
     obs = [o for o in obs if o.params.get("link_pos", "start") == "start" or not any("skip" in fk for fk in o.params["files"])]
